@@ -741,9 +741,10 @@ func (d *Document) createWordFieldTOC(config *TOCConfig, entries []TOCEntry) []i
 	}
 
 	// 添加TOC域结束段落
+	// 该段落只承载域结束标记，不引用段落样式：样式ID "2" 在样式表中没有定义
+	// （它是其他文档里“标题1”的编号，本库的标题样式ID是 Heading1-9）
 	endPara := &Paragraph{
 		Properties: &ParagraphProperties{
-			ParagraphStyle: &ParagraphStyle{Val: "2"},
 			Spacing: &Spacing{
 				Before: "240",
 				After:  "0",
